@@ -39,6 +39,13 @@ def run(ctx):
     samples = []
     for f in shard_files[:1]:
         samples = open(f).read().splitlines()[:6]
+    # recorded finding: interned value with a skipped field, referenced twice, decoded into a fresh interner
+    w = st.get("interned_skip_fresh_decode")
+    if w == "panic":
+        ctx.finding("c12_interned_skip_reference", "decoding (Interned<S>, Interned<S>) of one handle whose S has a non-default #[serialize(skip)] field panics in a fresh interner: the reference carries the hash of the full value, the decoded value is registered under the hash of the value without the skipped field",
+                    {"type": "(Interned<TupleS>, Interned<TupleS>) with TupleS(u8, #[serialize(skip)] String, i16)", "value": "h = intern(TupleS(1, \"skipped\", 2)); (h.clone(), h.clone())", "decoder": "fresh Interner, same hasher seed"})
+    elif w not in ("ok", None):
+        ctx.violation("interned_skip.json", {"what": "interned value with a skipped field: decode gave " + str(w)})
     # decide
     for msg in st["rust_fail"]:
         ctx.violation("roundtrip_fail.json", {"what": "real encoder/decoder do not round-trip", "case": msg,
